@@ -63,6 +63,16 @@ pub(crate) fn verify_membership<TC: Configuration>(
         curr_label = sibling_proof.label;
     }
 
+    // The label reached at the top of the path must be the root's: the hash chain binds a
+    // node's label only where it is hashed into its parent, so without this check a proof
+    // with no sibling levels would verify for any claimed label.
+    if curr_label != NodeLabel::root() {
+        return Err(VerificationError::MembershipProof(format!(
+            "Membership proof for label {:?} does not end at the root node",
+            proof.label
+        )));
+    }
+
     if TC::compute_root_hash_from_val(&curr_val) == root_hash {
         Ok(())
     } else {
